@@ -21,7 +21,7 @@ use vkit::run::{push_sample, Args, Run, Tier};
 use vkit::world::all_logs;
 use vkit::{clock, fsutil, gen};
 
-const OPS: [&str; 11] = [
+const OPS: [&str; 13] = [
     "create_secret",
     "update_secret",
     "delete_secret",
@@ -33,6 +33,8 @@ const OPS: [&str; 11] = [
     "delete_folder",
     "compact_folder",
     "change_folder_password",
+    "sync_pull",
+    "sync_merge",
 ];
 
 #[derive(Clone, Serialize, Deserialize)]
@@ -67,6 +69,85 @@ async fn stage1(op: &str, sqlite: bool, shared: &Path, stride: usize) -> CaseInf
         let base = shared.join(format!("case-{}-{}", op, backend.name()));
         let pre = base.join("pre");
         clock::install();
+        if op.starts_with("sync_") {
+            if sqlite {
+                return Err(anyhow!("SKIP: sync operations are driven on the file-system backend only"));
+            }
+            // world: server + two devices on a common prefix; device 0 adds
+            // an event and pushes it; for sync_merge device 1 also has an
+            // offline event (the interrupted sync then rewinds and replays)
+            let t = vkit::world::make_template(&base.join("tpl"), Backend::Fs, false, 2).await?;
+            let account_id: AccountId = t.account_id.parse().unwrap();
+            let tdir = Path::new(&t.dir);
+            let server = vkit::world::start_server(&tdir.join("server"), false, None, None).await?;
+            let d0 = Dev::open(&tdir.join("d0"), Backend::Fs, account_id, vkit::acct::password()).await?;
+            let dev0 = vkit::world::Device::connect(d0, 0, &server.origin).await?;
+            {
+                clock::set_device(0);
+                let mut a = dev0.account.lock().await;
+                for k in 0..2 {
+                    let (m, s) = gen::secret("note", 0, &format!("remote{}", k));
+                    a.create_secret(m, s, Default::default()).await?;
+                }
+            }
+            if dev0.sync().await != vkit::world::SyncResult::Ok {
+                return Err(anyhow!("prepare: device 0 sync failed"));
+            }
+            dev0.close().await;
+            server.stop().await;
+            if op == "sync_merge" {
+                clock::set_device(1);
+                clock::configure(1, 7_200_000_000_000, 1_000_001);
+                let mut d1 = Dev::open(&tdir.join("d1"), Backend::Fs, account_id, vkit::acct::password()).await?;
+                for k in 0..2 {
+                    let (m, s) = gen::secret("login", 0, &format!("local{}", k));
+                    d1.account.create_secret(m, s, Default::default()).await?;
+                }
+                d1.close().await;
+            }
+            fsutil::copy_dir(&tdir.join("d1"), &pre)?;
+            let mut ids = BTreeMap::new();
+            ids.insert("default".to_string(), t.default_folder.clone());
+            ids.insert("f1".to_string(), t.f1.clone());
+            ids.insert("s0".to_string(), t.s0.clone());
+            ids.insert("server_dir".to_string(), tdir.join("server").to_string_lossy().to_string());
+            info.account_id = account_id.to_string();
+            info.ids = ids.clone();
+            info.before = logs_of(&pre, account_id, backend).await?;
+            let pristine = base.join("pristine");
+            fsutil::copy_dir(&pre, &pristine)?;
+            let live = base.join("live");
+            fsutil::copy_dir(&pristine, &live)?;
+            let ids_file = base.join("ids.json");
+            std::fs::write(&ids_file, serde_json::to_vec(&ids)?)?;
+            let drv = std::env::current_exe()?.with_file_name("crashdrv");
+            let imgs = base.join("images");
+            let trace = base.join("trace.log");
+            let st = std::process::Command::new("strace")
+                .args(["-f", "-y", "-xx", "-s", "16777216", "-o"])
+                .arg(&trace)
+                .args(["-e", "trace=openat,creat,write,pwrite64,writev,pwritev,lseek,ftruncate,truncate,rename,renameat,renameat2,unlink,unlinkat,mkdir,mkdirat,rmdir,access,close,dup,dup2,dup3,fcntl,copy_file_range,sendfile"])
+                .arg(&drv).arg(&live).arg("fs").arg(account_id.to_string()).arg(op).arg(&ids_file)
+                .env_remove("VKIT_WORKER")
+                .stdout(std::process::Stdio::null())
+                .status()?;
+            if !st.success() {
+                return Err(anyhow!("driver under strace exited with {:?}", st));
+            }
+            let st = std::process::Command::new("python3")
+                .arg("/verif/py/crashimg.py").arg(&trace).arg(&pristine).arg(&imgs).arg(&live)
+                .args(["--stride", &stride.to_string()])
+                .status()?;
+            if !st.success() {
+                return Err(anyhow!("crashimg.py failed ({:?}): replay of the syscall log does not reproduce the real after-state", st.code()));
+            }
+            let man: Value = serde_json::from_slice(&std::fs::read(imgs.join("manifest.json"))?)?;
+            info.images = man["images"].as_array().cloned().unwrap_or_default();
+            info.effects = man["effects"].as_array().map(|a| a.iter().map(|x| x.as_str().unwrap_or("").to_string()).collect()).unwrap_or_default();
+            let _ = std::fs::remove_file(&trace);
+            info.after = logs_of(&live, account_id, backend).await?;
+            return Ok(());
+        }
         let mut dev = Dev::create(&pre, backend, "crash-account", true).await?;
         let default = dev.account.default_folder().await.unwrap();
         let f1 = dev.account.create_folder(NewFolderOptions::new("folder-one".into())).await?.folder;
@@ -388,7 +469,9 @@ fn main() {
             pool::ItemResult::Done(v) => {
                 let c: CaseInfo = serde_json::from_value(v).unwrap();
                 if let Some(e) = &c.error {
-                    run.machinery(format!("case {} ({}): {}", OPS[i % OPS.len()], if i >= OPS.len() { "sqlite" } else { "fs" }, e));
+                    if !e.starts_with("SKIP") {
+                        run.machinery(format!("case {} ({}): {}", OPS[i % OPS.len()], if i >= OPS.len() { "sqlite" } else { "fs" }, e));
+                    }
                 }
                 cases.push(c);
             }
